@@ -22,11 +22,28 @@ use crate::error::Result;
 ///
 /// Similar to [`OneOrMany`](crate::common::OneOrMany) except instances are guaranteed to be unique,
 /// and only immutable references are allowed.
-#[derive(Clone, Hash, PartialEq, Eq, PartialOrd, Ord, Deserialize, Serialize)]
+#[derive(Clone, Hash, PartialEq, Eq, PartialOrd, Ord, Serialize)]
 #[serde(transparent)]
 pub struct OneOrSet<T>(OneOrSetInner<T>)
 where
   T: KeyComparable;
+
+// Deserialize through `new_set` so that a one-element array takes the same (single item) form that every
+// constructor and `map`/`try_map` produce; otherwise `["a"]` and `"a"` are unequal values of the same set.
+impl<'de, T> Deserialize<'de> for OneOrSet<T>
+where
+  T: KeyComparable + Deserialize<'de>,
+{
+  fn deserialize<D>(deserializer: D) -> Result<Self, D::Error>
+  where
+    D: de::Deserializer<'de>,
+  {
+    match OneOrSetInner::<T>::deserialize(deserializer)? {
+      OneOrSetInner::Set(set) => OneOrSet::new_set(set).map_err(de::Error::custom),
+      one => Ok(OneOrSet(one)),
+    }
+  }
+}
 
 // Private to prevent creations of empty `Set` variants.
 #[derive(Clone, Debug, Hash, PartialEq, Eq, PartialOrd, Ord, Deserialize, Serialize)]
